@@ -727,10 +727,44 @@ fn boundary_points(rng: &mut Rng, rho_bins: u32, theta_bins: u32, out: &mut Vec<
     }
 }
 
+/// Statistics only: does `rho / delta_rho` hit an integer exactly (or within 2 ulps) at some
+/// theta step? Recomputed with the formula of the code.
+fn boundary_hit(p: SpacePoint, rb: u32, tb: u32) -> (bool, bool) {
+    if rb == 0 || tb == 0 {
+        return (false, false);
+    }
+    let (r, phi) = (p.r.value, p.phi.value);
+    let (x, y) = (r * phi.cos(), r * phi.sin());
+    let (u, v) = (x / (r * r), y / (r * r));
+    let drho = (1.0 / RC) / rb as f64;
+    let dtheta = 2.0 * PI / tb as f64;
+    let (mut exact, mut close) = (false, false);
+    for k in 0..=tb {
+        let th = k as f64 * dtheta;
+        let q = if k == 0 { u / drho } else { (u * th.cos() + v * th.sin()) / drho };
+        if q.is_finite() && q.abs() >= 1.0 {
+            let n = q.round();
+            if q == n {
+                exact = true;
+            } else if ((q - n) / q).abs() < 5e-16 {
+                close = true;
+            }
+        }
+    }
+    (exact, close)
+}
+
 fn push_bins(s: &mut Session, gen: &'static str, p: SpacePoint, rb: u32, tb: u32, skipped: &mut u64) {
     if !bins_safe(p.r.value, rb, tb) {
         *skipped += 1;
         return;
+    }
+    if gen == "bins-boundary" {
+        let (e, c) = boundary_hit(p, rb, tb);
+        let n = s.notes.entry("boundary_exact_integer_hits".into()).or_insert(serde_json::json!(0));
+        *n = serde_json::json!(n.as_u64().unwrap_or(0) + e as u64);
+        let n = s.notes.entry("boundary_within_2ulp_hits".into()).or_insert(serde_json::json!(0));
+        *n = serde_json::json!(n.as_u64().unwrap_or(0) + c as u64);
     }
     let (req, imp, why) = run_bins(p, rb, tb);
     s.push_oracle(gen, req, imp, why);
@@ -959,6 +993,25 @@ pub fn generate(s: &mut Session, thorough: bool) -> bool {
         s.push_oracle("clusterx-degenerate", req, imp, why);
     }
 
+    // clouds with a NaN coordinate (outside C15's quantifier: `p == p` is false and the real
+    // `remove_unchecked` panics when such a point is in a best cluster): the model must panic
+    // exactly when the implementation does; no oracle verdict.
+    s.agree = Some(both_panic);
+    for _ in 0..(if thorough { 2000 } else { 200 }) {
+        let (mut pts, cfg) = small_cloud(&mut rng);
+        if pts.is_empty() {
+            pts.push(random_point(&mut rng));
+        }
+        let k = rng.below(pts.len() as u64) as usize;
+        match rng.below(3) {
+            0 => pts[k].z.value = f64::NAN,
+            1 => pts[k].phi.value = f64::NAN,
+            _ => pts[k].r.value = f64::NAN,
+        }
+        let (req, imp, _) = run_clusterx("clusterx", &pts, cfg);
+        s.push("clusterx-nan", req, imp);
+    }
+
     // coverage statistics
     let mut hist: std::collections::BTreeMap<String, u64> = Default::default();
     for c in &s.cases {
@@ -981,6 +1034,11 @@ pub fn generate(s: &mut Session, thorough: bool) -> bool {
     }
     s.notes.insert("coverage".into(), serde_json::json!(hist));
     true
+}
+
+/// Panic messages of the implementation name no site; two panics agree.
+fn both_panic(imp: &str, model: &str) -> bool {
+    imp.starts_with("panic ") && model.starts_with("panic ")
 }
 
 pub fn run_request(cmd: &str, args: &[&str]) -> Option<String> {
